@@ -15,6 +15,7 @@ from sim import simset
 from sim.sched import InvalidCase, Violation
 
 ID = "C06"
+NEEDS_ZYGOTE = True          # only used if a change makes the distance functions run joblib workers in processes
 TITLE = "Returned matchings certify the reported bottleneck/Wasserstein distance"
 CASE_TIMEOUT_S = 120.0
 PLAN = {
@@ -159,6 +160,11 @@ def validate(kind, d, rows, S, T, where, scale):
 
 
 def run_case(case, sched):
+    with mc.parallel_world(sched, case):
+        return _run_case(case, sched)
+
+
+def _run_case(case, sched):
     inp, cfg = case["inputs"], case["config"]
     for k in ("dgm1", "dgm2"):
         dgmgen.check_diagram_json(inp[k])
